@@ -7,6 +7,8 @@ import (
 	"errors"
 	"fmt"
 	"go.opentelemetry.io/collector/pdata/plog"
+	"os"
+	"runtime/debug"
 	"sync"
 
 	"github.com/open-telemetry/otel-arrow/pkg/otel/arrow_record"
@@ -64,7 +66,10 @@ type decodeResult struct {
 func safeTracesFrom(c *arrow_record.Consumer, bar *colarspb.BatchArrowRecords) (res decodeResult) {
 	defer func() {
 		if r := recover(); r != nil {
-			res = decodeResult{Class: "panic", Msg: fmt.Sprint(r)}
+			if os.Getenv("VERIF_STACK") != "" {
+				fmt.Fprintf(os.Stderr, "%v\n%s\n", r, debug.Stack())
+			}
+			res = decodeResult{Class: "panic", Msg: fmt.Sprint(r) + " in " + firstRepoFrame(string(debug.Stack()))}
 		}
 	}()
 	// the consumer mutates nothing of the message, but copy defensively
